@@ -873,6 +873,8 @@ def counted_loop_nodes(fn, node, min_trips=1):
             return None
         body.append(x)
         for y, lab in x.succ:
+            if lab == "raise":
+                continue        # the exceptional way out of the body is not a path on which the loop completes
             work.append(y)
         if len(seen) > 400:
             return None
